@@ -127,6 +127,11 @@ def actor_op(kind, i):
         return ["add_cb", "S", "cb%d" % i, ["add_cb", "cb%d.n" % i]]
     if kind == "add_cb_raising":
         return ["add_cb", "S", "cb%d" % i, ["raise", "E3"]]
+    if kind == "add_cb_cancel":
+        # a callback that uses the future it is attached to: cancel() (a no-op by then), result(0)
+        return ["add_cb", "S", "cb%d" % i, ["op", ["cancel", "S"]]]
+    if kind == "add_cb_result":
+        return ["add_cb", "S", "cb%d" % i, ["op", ["result", "S", 0]]]
     if kind == "result":
         return ["result", "S", WAIT_T]
     if kind == "exception":
@@ -144,7 +149,7 @@ def actor_op(kind, i):
     raise ValueError(kind)
 
 
-ACTOR_KINDS = ["cancel", "add_cb", "add_cb_nested", "add_cb_raising", "result", "exception", "wait_all", "wait_first", "wait_exc",
+ACTOR_KINDS = ["cancel", "add_cb", "add_cb_nested", "add_cb_raising", "add_cb_cancel", "add_cb_result", "result", "exception", "wait_all", "wait_first", "wait_exc",
                "as_completed", "state"]
 
 
